@@ -183,6 +183,11 @@ func Yield(site uint32) {
 		s.hookFn = nil
 		s.res.HooksFired++
 		fn()
+		// the fault may have woken a task that was blocked outside the simulator: park here, so
+		// that it arrives (and the scheduler decides) before anybody executes another statement
+		s.pending = &Preempt{T: t.id, N: t.yields, To: -1}
+		s.handoff(t, stParked)
+		return
 	}
 	if s.cfg.Replay != nil {
 		if to, ok := s.pre[[2]int64{int64(t.id), t.yields}]; ok {
